@@ -452,3 +452,19 @@ CHECKS["C15"] = dict(
     outside=["rounding error of double arithmetic and of libm (formula level, oracle D6)", "float / long double precision settings, CUDA / Metal / JavaScript printers", "the C compiler itself"],
     assumptions=["the interpreter of the C expression fragment in harness/C15.cpp implements C's grammar and usual arithmetic conversions for the constructs the printer emits", "oracle D2 (vlib/vrecipe.h)"],
 )
+
+CHECKS["C08"] = dict(
+    src="C08.cpp", level="model_checking",
+    entries=[
+        dict(name="harness_c08_trig_shift", quick={"K": 5, "_opts": ["--fast-ms", "2000", "--slow-ms", "90000"]}, thorough={"K": 14, "_opts": ["--fast-ms", "2000", "--slow-ms", "120000"]}),
+        dict(name="harness_c08_trig_table", quick={"K": 26}, thorough={"K": 60}),
+        dict(name="harness_c08_inverse", quick={}, thorough={}),
+        dict(name="harness_c08_exact", quick={"B": 5}, thorough={"B": 12}),
+        dict(name="harness_c08_gamma", quick={"K": 5}, thorough={"K": 9}),
+        dict(name="harness_c08_special", quick={"pmax": 30}, thorough={"pmax": 60}),
+    ],
+    anchors=["SymEngine::sin(", "SymEngine::trig_simplify", "SymEngine::get_pi_shift", "SymEngine::asin(", "SymEngine::floor(", "SymEngine::gamma(", "SymEngine::beta(", "SymEngine::zeta(", "SymEngine::primepi", "SymEngine::levi_civita"],
+    bounds="sin, cos, tan, cot, sec, csc of +-x + k*pi/6 for a symbolic integer |k|<=5 (14) against the addition formulas at every real x; the special-angle table: sin/cos/tan/cot/sec/csc of k*pi/12 for symbolic |k|<=26 (60) must satisfy sin^2+cos^2=1, the double- and triple-angle relations, the quadrant signs and the pole positions (exact algebraic numbers, decided by nlsat); asin..acsc at 18 table values: f(finv(v))==v and principal ranges; floor/ceiling/truncate/abs/sign of symbolic rationals n/d |n|<=5 (12), d<=4, conjugate/abs of Gaussian integers, max/min of three exact numbers, kronecker_delta, levi_civita on {0,1,2}^3; gamma at k/2 |k|<=5 (9): poles, recurrence, gamma(1/2)^2==pi; beta(x,y)*gamma(x+y)==gamma(x)*gamma(y) incl. the pole cases; zeta(-n), zeta(2m), dirichlet_eta, erf/erfc parity, log(p/q), exp/lambertw special values, primepi/primorial up to 30 (60)",
+    outside=["complex arguments away from Gaussian integers", "floating-point arguments (C12 covers numeric evaluation)", "polygamma, lowergamma/uppergamma, atan2 tables", "arguments that are rational multiples of pi with denominators other than 12's divisors"],
+    assumptions=["oracle D2/D3 (vlib/veval.h): sin/cos/exp/log as uninterpreted functions with the textbook identities as instance axioms; radicals as real algebraic numbers"],
+)
